@@ -145,9 +145,10 @@ theorem lookup_known (m : Migration) (site : String) (f : Table → M Table) (id
 
 end Migration
 
-/-- every column record of the model table carries the type the reference table gives the column of that name -/
+/-- every column record of the model table carries the type and (as a multiset) the option kinds and values the
+    reference table gives the column of that name -/
 def TypesOK (tm : Table) (tb : TableSpec) : Prop :=
-  ∀ c ∈ tm.cols, ∃ cs ∈ tb.cols, cs.name = c.name ∧ c.cur.typ = some cs.typ
+  ∀ c ∈ tm.cols, ∃ cs ∈ tb.cols, cs.name = c.name ∧ c.cur.typ = some cs.typ ∧ (Table.optKinds c.cur.opts).Perm cs.opts
 
 /-- what is carried through the script -/
 structure Rel (m : Migration) (db : DB) : Prop where
@@ -340,9 +341,9 @@ theorem framed (h : Rel m db) {t : String} {tb tb' : TableSpec} (hf : db.find t 
     show tb.cols.map (·.name) = tb'.cols.map (·.name)
     rw [hc]
   · intro c hcm
-    obtain ⟨c0, hc0, hn0, ht0⟩ := Table.mem_of_sig hframe.sig hcm
-    obtain ⟨cs, hcs, hcsn, hcst⟩ := hty c0 hc0
-    exact ⟨cs, by rw [hc]; exact hcs, hcsn.trans hn0, by rw [← ht0]; exact hcst⟩
+    obtain ⟨c0, hc0, hn0, ht0, ho0⟩ := Table.mem_of_sig hframe.sig hcm
+    obtain ⟨cs, hcs, hcsn, hcst, hcso⟩ := hty c0 hc0
+    exact ⟨cs, by rw [hc]; exact hcs, hcsn.trans hn0, by rw [← ht0]; exact hcst, by rw [← ho0]; exact hcso⟩
 
 end Rel
 end Sqlize
